@@ -2,6 +2,7 @@
 From Coq Require Import Arith NArith List Bool.
 From Verif Require Import Model.Merkle Model.MerkleSpec Model.TreeStore Proofs.Frontier Proofs.Rht Proofs.Sparse
   Proofs.TreeStoreProofs Proofs.TreeStoreCorollaries Model.Contracts Proofs.ContractProofs Proofs.ContractVerify.
+From Verif Require Gen.GenTree Proofs.GenAgreeTree.
 Import ListNotations.
 Local Close Scope N_scope.
 
@@ -90,6 +91,24 @@ Theorem C08_contract_calculate_root_is_calc : forall {hash : Type} (node : hash 
   dc_calculate_root node (length s) bit leaf (cache_of_list z0 s) = calc node 0 s leaf bit.
 Proof. intros hash node z0. exact (dc_calculate_root_is_calc node z0). Qed.
 
+(* ================= the translated Go code =================
+   Gen/GenTree.v is GENERATED from tree/tree.go by tools/go2coq on every run: `CalculateRoot` (the bottom-up recomputation the
+   property speaks about, also what bridge service clients and the harnesses use to verify a proof) is the model's `calc`,
+   for every hash function, leaf, 32-element proof and index; hence a proof served for (root, index) of any reachable store
+   makes the TRANSLATED CalculateRoot return exactly that root. *)
+Theorem C08_generated_CalculateRoot_is_model : forall (hash : Type) (hash2 : hash -> hash -> hash) (hash0 : hash) leaf proof index,
+  length proof = 32 ->
+  GenTree.CalculateRoot hash hash2 hash0 leaf proof index = calc hash2 0 proof leaf (fun h => N.testbit index (N.of_nat h)).
+Proof. exact GenAgreeTree.CalculateRoot_agree. Qed.
+Theorem C08_generated_CalculateRoot_accepts_walk : forall (hash : Type) (node : hash -> hash -> hash) (hash0 : hash) (m : rht), WF node m ->
+  forall x idx s y, walk m 32 x (Nat.testbit idx) = Some (s, y) ->
+  GenTree.CalculateRoot hash node hash0 y s (N.of_nat idx) = x.
+Proof.
+  intros hash node hash0 m Hwf x idx s y Hw. destruct (walk_calc node m Hwf 32 x idx s y Hw) as [Hl Hc].
+  rewrite (GenAgreeTree.CalculateRoot_agree hash node hash0 y s (N.of_nat idx) Hl). rewrite <- Hc.
+  apply GenAgreeTree.calc_bit_ext. intros h. apply Proofs.BitFacts.bitN_of_nat.
+Qed.
+
 Print Assumptions C08_wf_preserved_by_insert.
 Print Assumptions C08_store_proof_verifies.
 Print Assumptions C08_contract_accepts_served_proof.
@@ -100,3 +119,5 @@ Print Assumptions C08_append_proof_verifies.
 Print Assumptions C08_append_keeps_closed.
 Print Assumptions C08_older_versions_stay_closed.
 Print Assumptions C08_updatable_proof_verifies.
+Print Assumptions C08_generated_CalculateRoot_is_model.
+Print Assumptions C08_generated_CalculateRoot_accepts_walk.
